@@ -325,6 +325,13 @@ Definition builtin (f : string) (args : list val) (st : state) : option (outcome
     | [VInt a; VInt b] => Some (Ok (VList (zrange a b)) st)
     | _ => None
     end
+  else if is f "slice" then
+    match args with
+    | [a; b; c] => Some (Ok (VTuple [VStr "$slice"; a; b; c]) st)
+    | _ => None
+    end
+  else if is f "$ellipsis" then
+    match args with [] => Some (Ok (VTuple [VStr "$ellipsis"]) st) | _ => None end
   else if is f "islice" then
     match args with
     | [VList l; VInt a; VInt b; VInt c] =>
@@ -395,6 +402,12 @@ Fixpoint sort_keyed_aux (l : list (val * val)) : option (list (val * val)) :=
 Definition sort_keyed (l : list (val * val)) : option (list val) :=
   option_map (map snd) (sort_keyed_aux l).
 
+Definition binop_name (op : binop) : string :=
+  match op with
+  | Add => "add" | Sub => "sub" | Mul => "mul" | FloorDiv => "floordiv" | Mod => "mod" | Pow => "pow"
+  | BitAnd => "and" | BitOr => "or"
+  end.
+
 (* ---- the interpreter ---------------------------------------------------------- *)
 Section Interp.
   (* calls the subset does not define: name, positional and keyword arguments, state *)
@@ -447,12 +460,14 @@ Section Interp.
     | EConst v => Ok v st
     | EName x => match lookup x (vars st) with Some v => Ok v st | None => Stuck ("unbound " ++ x) end
     | EAttr o a => bind (eval o st) (fun ov st1 => attribute ov a st1)
-    | ESub o k => bind (eval o st) (fun ov st1 => bind (eval k st1) (fun kv st2 => subscript ov kv st2))
+    | ESub o k => bind (eval o st) (fun ov st1 => bind (eval k st1) (fun kv st2 =>
+                    match subscript ov kv st2 with
+                    | Stuck _ => ext "$getitem" [ov; kv] [] st2   (* x[k] outside the subset: a tensor, a slice / tuple index *)
+                    | o => o
+                    end))
     | EBin op a b => bind (eval a st) (fun av st1 => bind (eval b st1) (fun bv st2 =>
                        match binop_eval op av bv st2 with
-                       | Stuck _ => ext "operator" [VStr (match op with
-                                                          | Pow => "pow" | Add => "add" | Sub => "sub" | Mul => "mul"
-                                                          | _ => "?" end); av; bv] [] st2
+                       | Stuck _ => ext "operator" [VStr (binop_name op); av; bv] [] st2
                        | o => o
                        end))
     | ENeg a => bind (eval a st) (fun av st1 =>
@@ -526,9 +541,9 @@ Section Interp.
                   let j := if Z.ltb i 0 then (i + n)%Z else i in
                   if (Z.leb 0 j && Z.ltb j n)%bool then store o (VList (list_set l (Z.to_nat j) v)) st2
                   else Exc "IndexError" st2
-              | _ => Stuck "subscript store"
+              | _ => bind (ext "$setitem" [ov; kv; v] [] st2) (fun nv st3 => store o nv st3)
               end
-          | _ => Stuck "subscript store"
+          | _ => bind (ext "$setitem" [ov; kv; v] [] st2) (fun nv st3 => store o nv st3)
           end))
     | _ => Stuck "store target"
     end.
@@ -553,7 +568,10 @@ Section Interp.
     | SAssign ts e => bind (eval e st) (fun v st1 => bind (assign_all ts v st1) (fun _ st2 => Ok CNormal st2))
     | SAug t op e =>
         bind (eval (place_of t) st) (fun old st1 => bind (eval e st1) (fun v st2 =>
-          bind (binop_eval op old v st2) (fun nv st3 =>
+          bind (match binop_eval op old v st2 with
+                | Stuck _ => ext "operator" [VStr (binop_name op); old; v] [] st2
+                | o => o
+                end) (fun nv st3 =>
             bind (store (place_of t) nv st3) (fun _ st4 => Ok CNormal st4))))
     | SIf c t f => bind (eval c st) (fun cv st1 => if truthy cv then exec t st1 else exec f st1)
     | SFor x e body =>
